@@ -40,7 +40,10 @@ def run_batch(ck, label, histories, domains, box=2, univ=12, timeout=1500, step_
     vlib.write_ndjson(tp, traces)
     vlib.write_known_for_spec(kp)
     r = tlc("DomainOps", "DomainOps", ck.pid.lower() + "-" + label,
-            env={"DOM_TRACES": tp, "KNOWN_FINDINGS": kp, "BOX": box, "UNIV": univ}, cont=True, timeout=timeout)
+            env={"DOM_TRACES": tp, "KNOWN_FINDINGS": kp, "BOX": box, "UNIV": univ},
+            # deep traces: TLC stops at the first UNLISTED failing step (reconstructing thousands of error traces
+            # under -continue takes tens of minutes); steps matching a known finding never stop it
+            cont=os.environ.get("VERIF_TLC_CONTINUE") == "1", timeout=timeout)
     ck.add_tlc(r, "DomainOps/" + label)
     errs = collections.Counter((x["dom"], x["err"]) for x in recs if "err" in x)
     ok_traces = sum(1 for x in recs if "err" not in x)
